@@ -3,6 +3,8 @@
 import json, glob, os, re
 R2_FIRST_OWN = set("C01-1 C02-3 C03-1 C03-2 C03-3 C04-2 C05-2 C08-2 C10-1 C10-2 C11-2 C12-1 C12-2 C13-1 C13-2 C13-3 C14-1 C14-3 C09-2 C15-1 C15-2 C16-2 C16-3 C17-1 C18-1 C18-2 C19-1 C19-2 C19-3".split())
 R2_FIRST_NONE = set("C05-1 C06-3 C07-1 C08-3 C10-3 C12-3 C15-3 C16-1".split())
+R3_FIRST_OWN = set("C01-1 C01-2 C01-3 C02-1 C02-2 C02-3 C03-1 C03-2 C03-3 C04-1 C04-3 C05-2 C05-3 C06-1 C06-2 C08-1 C08-2 C08-3 C09-1 C09-2 C11-1 C11-2 C12-1 C12-2 C13-1 C13-2 C13-3 C14-1 C14-3 C15-1 C15-3 C17-1 C17-2 C17-3 C18-2 C19-1".split())
+R3_FIRST_NONE = set("C14-2 C18-1 C18-3 C19-2 C19-3".split())
 old = {}
 if os.path.exists('/verif/seeded/INDEX.md'):
     for l in open('/verif/seeded/INDEX.md'):
@@ -14,7 +16,10 @@ for mp in sorted(glob.glob('/verif/seeded/*/meta.json')):
     name = os.path.basename(os.path.dirname(mp))
     m = json.load(open(mp))
     if 'first_run' not in m:
-        if '-r2-' in name:
+        if '-r3-' in name:
+            k = name.replace('-r3-', '-')
+            m['first_run'] = 'caught' if k in R3_FIRST_OWN else ('MISSED by every check' if k in R3_FIRST_NONE else 'MISSED by its own property (caught by others)')
+        elif '-r2-' in name:
             k = name.replace('-r2-', '-')
             m['first_run'] = 'caught' if k in R2_FIRST_OWN else ('MISSED by every check' if k in R2_FIRST_NONE else 'MISSED by its own property (caught by others)')
         else:
